@@ -3,6 +3,7 @@ module verifharness
 go 1.23
 
 require (
+	github.com/miekg/dns v1.1.61
 	github.com/prometheus/client_golang v1.19.1
 	github.com/prometheus/client_model v0.6.1
 	github.com/tsenart/vegeta/v12 v12.0.0
